@@ -13,7 +13,18 @@ def sh(cmd, cwd=None, env=None):
     return subprocess.run(cmd, shell=True, text=True, cwd=cwd, env=env, stdout=subprocess.PIPE, stderr=subprocess.STDOUT)
 
 
+def snapshot():
+    """The checks run from a copy of /verif taken now: harness edits made while the matrix runs must not reach it."""
+    snap = "/tmp/verif-snap-%s-%d" % ("seedmx", os.getpid())
+    shutil.rmtree(snap, ignore_errors=True)
+    shutil.copytree(VERIF, snap, ignore=shutil.ignore_patterns(".git", "replays", "evidence"))
+    os.makedirs(os.path.join(snap, "replays"), exist_ok=True)
+    os.makedirs(os.path.join(snap, "evidence"), exist_ok=True)
+    return snap
+
+
 def main():
+    SNAP = snapshot()
     names = sys.argv[1:] or sorted(os.path.basename(os.path.dirname(p)) for p in glob.glob(os.path.join(VERIF, "seeded", "*", "patch.diff")))
     out_path = os.path.join(VERIF, "seeded", "MATRIX.json")
     res = json.load(open(out_path)) if os.path.exists(out_path) else {}
@@ -33,7 +44,7 @@ def main():
                     print(name, "patch does not apply")
                     continue
                 env = dict(os.environ, VERIF_REPO=wt, VERIF_OUT_DIR="/tmp/verif-tool-out")
-                c = sh("./check %s quick" % prop, cwd=VERIF, env=env)
+                c = sh("./check %s quick" % prop, cwd=SNAP, env=env)
                 caught = "VIOLATION property=" in c.stdout
                 kinds = sorted(set(re.findall(r"^--- ([a-z0-9-]+):", c.stdout, re.M)))[:4]
                 res[name] = {"property": prop, "repo_head": head, "exit": c.returncode, "caught": caught, "kinds": kinds}
@@ -45,6 +56,7 @@ def main():
     finally:
         shutil.rmtree("/tmp/verif-tool-out", ignore_errors=True)
     sh("git -C /repo worktree prune")
+    shutil.rmtree(SNAP, ignore_errors=True)
 
 
 if __name__ == "__main__":
